@@ -344,7 +344,10 @@ class CompMixin:
         out = []
         for s, nonempty in self.branch(st, n > 0, "max() of non-empty"):
             if not nonempty:
-                out.append((self.raise_exc(s, "ValueError"), None))
+                if "default" in kw:
+                    out.append((s, kw["default"]))          # max(iterable, default=d): d for an empty iterable
+                else:
+                    out.append((self.raise_exc(s, "ValueError"), None))
                 continue
             k = fresh("argmax")
             s.assume(z3.And(k >= 0, k < n))
